@@ -201,6 +201,15 @@ fn plan_inner(prop: &str, tier: &str) -> Option<Plan> {
                         jobs.extend(sharded(prop, "gsweep", f, tier, json!({"n": n, "max_l": l, "val_range": 0, "iso": true}), sh));
                     }
                 }
+                // other searches interfering with the checked one: run before it on the same graph (1),
+                // run from inside its closure (2)
+                for interf in 1..=2u8 {
+                    let ib: Vec<(usize, usize, usize)> = if tier == "quick" { vec![(3, 2, 8)] } else { vec![(3, 3, 16), (4, 2, 16)] };
+                    for (n, l, sh) in ib {
+                        let vr = if prop == "C06" { 2 } else { 0 };
+                        jobs.extend(sharded(prop, "gsweep", f, tier, json!({"n": n, "max_l": l, "val_range": vr, "interf": interf}), sh));
+                    }
+                }
                 // the same shapes reached from non-initial states: through histories with removals
                 // (mesh connected and disconnected / isolated first; a temporary edge around every connect)
                 for churn in 1..=3u8 {
